@@ -96,7 +96,7 @@ def run(path, rlimit=None, extra=(), timeout=900, threads=None, multiple_errors=
         mine = [s for s in d.get('spans', []) if os.path.basename(s.get('file_name', '')) == base]
         prim = [s for s in mine if s.get('is_primary')] or mine
         line_no = prim[0]['line_start'] if prim else 0
-        text = prim[0]['text'][0]['text'].strip() if prim and prim[0].get('text') else ''
+        text = ' '.join(t['text'].strip() for t in prim[0]['text'][:3]) if prim and prim[0].get('text') else ''
         ext = [s for s in d.get('spans', []) if s.get('is_primary') and os.path.basename(s.get('file_name', '')) != base]
         if ext:
             msg = msg + ' (contract declared in %s:%d)' % (ext[0].get('file_name'), ext[0].get('line_start'))
